@@ -85,6 +85,61 @@ def zoo(cell, g):
     return m, out
 
 
+def zoo_interior(cell, g):
+    """single-integral INTERIOR-FACET forms (gdim == tdim): restrictions are propagated at the very end of the
+    pipeline (FormData.__init__), after pullbacks / scaling / lowering have acted under the Restricted nodes"""
+    m = uflgen.mesh(cell, g)
+    td = m.topological_dimension
+    f = uflgen.coef((), cell, g, degree=2)
+    fc = uflgen.coef((), cell, g)
+    v = uflgen.arg(0, (), cell, g)
+    u = uflgen.arg(1, (), cell, g)
+    x = ufl.SpatialCoordinate(m)
+    n = ufl.FacetNormal(m)
+    dS = ufl.dS(m)
+    out = [
+        ("Smass", f("+") * v("-") * dS),
+        ("Sjump", ufl.jump(f) * ufl.jump(v) * dS),
+        ("Savg", ufl.avg(f) * ufl.avg(v) * dS),
+        ("Sflux", ufl.dot(ufl.grad(f)("+"), n("+")) * v("+") * dS),
+        ("Sfluxm", ufl.dot(ufl.grad(f)("-"), n("-")) * v("-") * dS),
+        ("Sip", ufl.inner(ufl.avg(ufl.grad(u)), ufl.jump(v, n)) * dS),
+        ("Sjumpn", ufl.jump(ufl.grad(f), n) * v("+") * dS),
+        ("Scoord", x[0]("-") * f("-") * v("+") * dS),
+        ("Sdefault", fc * x[0] * v("+") * dS),          # unrestricted continuous data: default restriction
+        ("Sfarea", C.FacetArea(m) * f("+") * v("+") * dS) if td > 1 else None,
+        ("Svol", C.CellVolume(m)("-") * f("-") * v("+") * dS),
+    ]
+    out = [o for o in out if o is not None]
+    if td >= 2:
+        rt = FiniteElement("RT", m.ufl_cell(), 1, (td,), contravariant_piola, HDiv)
+        srt = ufl.FunctionSpace(m, rt)
+        out.append(("Srt", ufl.dot(ufl.Coefficient(srt)("+"), n("+")) * v("-") * dS))
+    return m, out
+
+
+def walk_sides(e, side=None, acc=None):
+    """{terminal: set of restriction contexts (None, '+', '-') it occurs in}"""
+    acc = {} if acc is None else acc
+    stack = [(e, side)]
+    seen = set()
+    while stack:
+        a, sd = stack.pop()
+        if (id(a), sd) in seen:
+            continue
+        seen.add((id(a), sd))
+        if isinstance(a, C.Restricted):
+            stack.append((a.ufl_operands[0], a.side()))
+        elif a._ufl_is_terminal_:
+            acc.setdefault(a, set()).add(sd)
+        else:
+            stack.extend((o, sd) for o in a.ufl_operands)
+    return acc
+
+
+SIDE_TXT = {None: "None", "+": "(Some true)", "-": "(Some false)"}
+
+
 def spec_pullback(t):
     """The declared push-forward of a form argument, written down independently of ufl/pullback.py for the
     leaf pullbacks identity / covariant Piola / contravariant Piola (leading axes pass through, the last
@@ -141,6 +196,36 @@ def build_case(name, m, form, opts, out=None, pres=None):
     hyps, named = [], {}
     nz = []
     done = set()
+    interior = itype == "interior_facet"
+    sides = ["(Some true)", "(Some false)"] if interior else ["s"]
+    nside = 0
+    if interior:
+        # single-valued data used without a restriction: its value does not depend on the side (the continuity
+        # law of C17); the code picks a default side, the hypothesis points to whichever side the output uses
+        occ_in, occ_out = {}, walk_sides(out)
+        for p_ in list(pres) + [scale]:
+            walk_sides(p_, None, occ_in)
+        for t, sds in sorted(occ_in.items(), key=lambda kv: repr(kv[0])):
+            if None not in sds or isinstance(t, (C.QuadratureWeight, C.ConstantValue, C.MultiIndex, C.Label)):
+                continue
+            used = occ_out.get(t, set())
+            if None in used and len(used) == 1:
+                continue
+            tgt = "+" if "+" in used or "-" not in used else "-"
+            named[f"U{nside}"] = t
+            for c in comps(t.ufl_shape):
+                cl = ufl2coq.natlist(c)
+                hyps.append(f"DEN None rho {{U{nside}}} {cl} = DEN {SIDE_TXT[tgt]} rho {{U{nside}}} {cl}")
+            nside += 1
+        # affine non-manifold mesh: the two facet normals are opposite (C17); only needed while the normal is
+        # not lowered to per-side reference data
+        if not geom and any(isinstance(t, C.FacetNormal) for t in occ_in):
+            nrm = next(t for t in occ_in if isinstance(t, C.FacetNormal))
+            named["NRM"] = nrm
+            for c in comps(nrm.ufl_shape):
+                cl = ufl2coq.natlist(c)
+                hyps.append(f"DEN (Some false) rho {{NRM}} {cl} = opp (DEN (Some true) rho {{NRM}} {cl})")
+    nlaw = len(hyps)
     todo = [t for p_ in pres for t in terminals(p_)] + list(terminals(scale)) + [C.JacobianInverse(m)]  # K: chain rule
     nh = 0
     while todo:
@@ -165,31 +250,34 @@ def build_case(name, m, form, opts, out=None, pres=None):
         named[key + "r"] = repl
         for c in comps(t.ufl_shape):
             cl = ufl2coq.natlist(c)
-            hyps.append(f"DEN s rho {{{key}t}} {cl} = DEN s rho {{{key}r}} {cl}")
+            for sd in sides:
+                hyps.append(f"DEN {sd} rho {{{key}t}} {cl} = DEN {sd} rho {{{key}r}} {cl}")
         todo.extend(terminals(repl))
     # non-degeneracy: the Jacobian determinant (as lowered, or as the terminal) is non-zero
     detJ = C.JacobianDeterminant(m)
     named["DJ"] = apply_geometry_lowering(detJ) if geom else detJ
-    hyps.append("DEN s rho {DJ} [] <> z0")
+    for sd in sides:
+        hyps.append(f"DEN {sd} rho {{DJ}} [] <> z0")
     # ... and so is the Gram determinant of the Jacobian (what the pseudo-inverse divides by on manifolds)
     jac = C.Jacobian(m)
     named["JAC"] = apply_geometry_lowering(jac) if geom else jac
     gd_, td_ = jac.ufl_shape
-    hyps.append(f"DET {td_} (GRAM {gd_} (MAT (DEN s rho {{JAC}}))) <> z0")
-    nrew = len(hyps) - 2
+    for sd in sides:
+        hyps.append(f"DET {td_} (GRAM {gd_} (MAT (DEN {sd} rho {{JAC}}))) <> z0")
+    nrew = len(hyps) - 2 * len(sides)
     rew = ", ".join(f"?H{k}" for k in range(nrew))
-    tac = ("norm_goal; repeat rewrite (Hchain s); "
+    tac = ("norm_goal; " + ("repeat rewrite HchainT; " if interior else "repeat rewrite (Hchain s); ")
            + (f"repeat (progress (rewrite {rew})); " if nrew else "")
            + "finish")
     total = None
     for k, p_ in enumerate(pres):
         named[f"PRE{k}"] = p_
-        t_ = f"(DEN s rho {name}_PRE{k} [])"
+        t_ = f"(DEN {'None' if interior else 's'} rho {name}_PRE{k} [])"
         total = t_ if total is None else f"(add {total} {t_})"
-    spec = f"mul (DEN s rho {name}_SC []) {total}"
+    spec = f"mul (DEN {'None' if interior else 's'} rho {name}_SC []) {total}"
     named["SC"] = scale
     case = coqgen.Case(name, out=out, spec=spec, hyps=hyps, named=named, ctx=ctx, comps=[()], tactic=tac,
-                       refvalue_terminal=True,
+                       refvalue_terminal=True, side="None" if interior else "s",
                        note={"integral_type": itype, "options": [k for k, v in opts.items() if v]})
     case.pre, case.scale, case.form, case.pres = pre, scale, form, list(pres)
     return case
@@ -258,6 +346,9 @@ def header(ctx_probe_kinv, td, g):
         body = t if body is None else f"(add {body} {t})"
     return (f"(* chain rule through the affine cell map: physical derivative = K^T reference derivative *)\n"
             f"Hypothesis Hchain : forall (s : side) (j : nat) (x : KT), Dx j x = {body}.\n"
+            "(* the same law for data living on one side of an interior facet (each side has its own cell map) *)\n"
+            f"Hypothesis HchainT : forall (s : side) (kd id_ : nat) (c : list nat) (j : nat), Dx j (env s kd id_ c) = "
+            + body.replace(" x)", " (env s kd id_ c))") + ".\n"
             "Ltac finish := first [ reflexivity | ring | field; nz_solve char0\n"
             "                     | repeat unify1; first [ reflexivity | ring | field; nz_solve char0 ] ].\n")
 
@@ -320,6 +411,42 @@ def run_end_to_end(run):
             if case is None or case.name in seen:
                 if case is None:
                     run.violation({"broken": "generated end-to-end obligations do not compile", "message": msg}, False)
+                continue
+            seen.add(case.name)
+            w = numeric_check(case.form, {k: (k in case.note["options"]) for k in OPTS}, trials=6, seed=run.seed,
+                              out=case.out, pres=case.pres)
+            rep = {"broken_obligation": lemma, "case": case.name, "note": case.note, "coq_message": msg,
+                   "form": str(case.form)[:500], "preprocessed_integrand": str(case.out)[:1500],
+                   "reproduce": "bin/check C01"}
+            if w:
+                rep["witness"] = w
+            run.violation(rep, bool(w))
+    # interior-facet integrals (restrictions are propagated last; two cell maps per facet)
+    icells = [("triangle", 2), ("interval", 1)] + ([("tetrahedron", 3)] if run.tier == "thorough" else [])
+    for cell, g in icells:
+        m, forms = zoo_interior(cell, g)
+        td = m.topological_dimension
+        cases = []
+        for (fname, form), o in itertools.product(forms, option_sets(run.tier)):
+            tag = "".join("1" if o[k] else "0" for k in OPTS)
+            name = f"e2eS_{cell[:3]}{g}_{fname}_{tag}"
+            try:
+                c = build_case(name, m, form, o)
+            except ufl2coq.Unsupported as e:
+                skipped.append((name, f"unsupported node: {e}"))
+                continue
+            if isinstance(c, str):
+                skipped.append((name, c))
+                continue
+            cases.append(c)
+            run.count_case(name)
+        failing = coqgen.emit_and_check(run, f"C01e2eS_{cell[:3]}{g}", cases, extra_header=header(kinv, td, g),
+                                        timeout=900)
+        seen = set()
+        for case, lemma, msg in failing:
+            if case is None or case.name in seen:
+                if case is None:
+                    run.violation({"broken": "generated interior-facet obligations do not compile", "message": msg}, False)
                 continue
             seen.add(case.name)
             w = numeric_check(case.form, {k: (k in case.note["options"]) for k in OPTS}, trials=6, seed=run.seed,
